@@ -77,6 +77,28 @@ equation
   der(x) = -x; W = g * x; R = h * x; y = x; z = 2*x;
 end M;
 """, {}),
+    # every parameter replaced by its value: no parameters are left, but an attribute can still be an MX
+    # (a Boolean expression of former parameters stays symbolic-constant): MX_INDEPENDENT with an empty parameter vector
+    ("""model M
+  parameter Real lim = 3; parameter Real g = 2;
+  Real x(min = -lim, max = lim, start = 0.5);
+  Real z(max = g*lim);
+  Boolean act(start = lim > 1);
+  input Real u;
+equation
+  der(x) = -g*x + u; z = g*x; act = x > 0;
+end M;
+""", {"replace_parameter_values": True}),
+    ("""model M
+  parameter Real lim = 3; parameter Real g = 2;
+  Real x(min = -lim, max = lim, start = 0.5);
+  Real z(max = g*lim);
+  Boolean act(start = lim > 1);
+  input Real u;
+equation
+  der(x) = -g*x + u; z = g*x; act = x > 0;
+end M;
+""", {"replace_parameter_values": True, "detect_aliases": True, "expand_vectors": True}),
     # three delays whose durations depend on different parameters: exercises the reuse of `actual_deps`
     ("""model M
   parameter Real p0 = 1; parameter Real p1 = 2; parameter Real p2;
@@ -413,7 +435,7 @@ def run(ctx):
             done_cg += 1
             c = gen_case(ctx.rng, "codegen")      # always drawn: the case sequence depends on the seed only
             if done_cg == 3:
-                c.update(text=TARGETED[3][0], opts=dict(TARGETED[3][1]), features=["targeted"])
+                c.update(text=TARGETED[5][0], opts=dict(TARGETED[5][1]), features=["targeted"])
             if done_cg == 2:    # expand_mx changes the compile of this model, and only codegen leaves it to the caller
                 base = {"expand_vectors": True, "eliminate_constant_assignments": True}
                 c.update(text=SMALL_ARRAY_CONST, opts=base, opts2=G.flip(base, "expand_mx"), features=["targeted"])
